@@ -6,7 +6,13 @@ Wave 2: `random_agents` with a scripted random source (same draws for the real c
 driver) and with the real RNG (reference property only); `Model.configure` (dict variant); factories
 whose agents carry an `agent_type` attribute different from the registered key (off-contract: model
 correspondence is informative, only the unconditional clauses are reference-checked); unregistered
-types (KeyError paths); caller mutation of the list returned by `agent_ids` (aliasing fact)."""
+types (KeyError paths); caller mutation of the list returned by `agent_ids` (aliasing fact).
+
+Wave 4: operations whose ARGUMENT is one of the model's own returned objects: `delete_agents(model.agent_ids(T))`,
+`delete_agents(model.agent_type_map[T])` (one `deleteown` request: the model deletes the value its own list has),
+`for i in model.agent_ids(T): model.delete_agent(i)` (the deletions that really happen are sent one by one),
+`delete_agents(held)` with a list obtained from `agent_ids` earlier (the model gets the value the list has when the
+call starts).  The real code always receives the aliased object, the model the snapshot."""
 import itertools, json, random as _pyrandom
 from common import *
 
@@ -49,6 +55,8 @@ class Scripted:
 # ---- operations
 # ("create", k) ("delete", [ids]) ("configure", [(k,n)..]) ("configureall", [(k,n)..], variant) ("reset",)
 # ("setstate", id, st) ("callerappend", t, x)
+# ("delown", t, "ids"|"map")   delete_agents(agent_ids(T)) / delete_agents(agent_type_map[T])
+# ("deliter", t)   for i in agent_ids(T): delete_agent(i)        ("hold", t)  held = agent_ids(T)      ("delheld",)  delete_agents(held)
 # ("q", "lookup", i) ("q","ids",t) ("q","cnt",t) ("q","cps",t,s) ("q","nx",t,s) ("q","rnd",t,num,[u..])
 def config_dict(spec, variant):
     props_d = {PROP_NAMES[(variant + j) % len(PROP_NAMES)]:
@@ -65,13 +73,18 @@ def config_dict(spec, variant):
             "properties": props, "agents": agents}
 
 
-def apply_real(m, op):
-    """Performs the operation; returns "ok" / "ERR" (raised) or, for queries, the canonical answer."""
+def apply_real(m, op, arg_obj=None):
+    """Performs the operation; returns "ok" / "ERR" (raised) or, for queries, the canonical answer.
+    `arg_obj`: the object to pass to delete_agents instead of a fresh list (an alias of a registry list)."""
     k = op[0]
     if k == "q":
         return query_one(m, op)
     try:
-        if k == "create":
+        if k == "delete" and arg_obj is not None:
+            m.delete_agents(arg_obj)
+        elif k == "delown":
+            m.delete_agents(m.agent_ids(TYPES[op[1]]) if op[2] == "ids" else m.agent_type_map[TYPES[op[1]]])
+        elif k == "create":
             m.create_agent(TYPES[op[1]], {})
         elif k == "delete":
             if len(op[1]) == 1:
@@ -109,6 +122,12 @@ def op_line(op):
         return f"setstate {op[1]} {op[2]}"
     if k == "callerappend":
         return f"callerappend {op[1]} {op[2]}"
+    if k == "delown":
+        return f"deleteown {op[1]} {op[2]}"
+    if k in ("deliter", "hold"):
+        return f"{k} {op[1]}"
+    if k == "delheld":
+        return "delheld"
     if op[1] == "rnd":
         return f"q rnd {op[2]} {op[3]} " + (",".join(map(str, op[4])) or "-")
     return "q " + " ".join(map(str, op[1:]))
@@ -125,6 +144,9 @@ def parse_line(l, variant=0):
     if p[0] == "reset": return ("reset",)
     if p[0] == "setstate": return ("setstate", int(p[1]), int(p[2]))
     if p[0] == "callerappend": return ("callerappend", int(p[1]), int(p[2]))
+    if p[0] == "deleteown": return ("delown", int(p[1]), p[2])
+    if p[0] in ("deliter", "hold"): return (p[0], int(p[1]))
+    if p[0] == "delheld": return ("delheld",)
     if p[0] == "q" and p[1] == "rnd": return ("q", "rnd", int(p[2]), int(p[3]), nats(p[4]))
     if p[0] == "q": return ("q", p[1]) + tuple(int(x) for x in p[2:])
     raise ValueError(l)
@@ -207,6 +229,8 @@ class Shadow:
             self.create(op[1])
         elif k == "delete":
             self.live = [a for a in self.live if a[0] not in op[1]]
+        elif k == "delown":                      # every live agent of the type (contract histories: attribute = key)
+            self.live = [a for a in self.live if a[1] != op[1]]
         elif k in ("configure", "configureall"):
             self.live = []
             for t, n in op[1]:
@@ -334,7 +358,7 @@ class Hist:
         self.ops, self.fac, self.mode, self.tag = list(ops), fac, mode, tag
     def contract(self):
         return is_faithful(self.fac) and not any(
-            o[0] == "callerappend" or (o[0] == "create" and o[1] not in REG)
+            o[0] == "callerappend" or (o[0] == "create" and o[1] not in REG) or (o[0] in ("delown", "deliter", "hold") and o[1] not in REG)
             or (o[0] in ("configure", "configureall") and any(t not in REG for t, _ in o[1])) for o in self.ops)
     def lines(self):
         return [f"fac {k} " + (",".join(map(str, l)) or "-") for k, l in sorted((self.fac or {}).items())] + [op_line(o) for o in self.ops]
@@ -353,8 +377,10 @@ def run_history(h):
     req, real, viols = ["new " + ",".join(map(str, REG))], ["ok"], []
     for k, l in sorted((h.fac or {}).items()):
         req.append(f"fac {k} " + (",".join(map(str, l)) or "-")); real.append("ok")
-    for i, op in enumerate(h.ops):
-        ans = apply_real(m, op)
+    held = [None]
+    def do(i, op, arg_obj=None):
+        nonlocal viols, spec_ok
+        ans = apply_real(m, op, arg_obj)
         req.append(op_line(op)); real.append(ans)
         v = []
         if op[0] == "q":
@@ -374,6 +400,24 @@ def run_history(h):
                     v = v + spec_violations(m, sh, contract)
         if v and not viols:
             viols = [(i, v)]
+    for i, op in enumerate(h.ops):
+        if op[0] == "hold":                      # the caller keeps the list object agent_ids returned
+            held[0] = _guard(lambda: m.agent_ids(TYPES[op[1]]))
+            if held[0] == "ERR":
+                held[0] = None
+        elif op[0] == "delheld":                 # ... and later passes it to delete_agents: the model gets its value now
+            if held[0] is not None:
+                do(i, ("delete", list(held[0])), arg_obj=held[0])
+        elif op[0] == "deliter":                 # deleting while iterating the returned list: what really gets deleted
+            obj = _guard(lambda: m.agent_ids(TYPES[op[1]]))
+            n = 0
+            for x in (obj if obj != "ERR" else []):
+                do(i, ("delete", [x]))
+                n += 1
+                if n > 200:
+                    break
+        else:
+            do(i, op)
     if h.mode != "full":
         req.append("query"); real.append(query_real(m))
         if spec_ok and not viols:
@@ -406,6 +450,23 @@ def probe_count_by_id():
     m.agent(3).state = "s1"
     try:
         return m.agent_count_per_state("a", "active") == 2 and m.agent_count_per_state("a", "s1") == 1
+    except Exception:
+        return False
+
+
+def probe_delete_snapshot():
+    """Is delete_agents a function of the VALUE of its argument, also when the argument is the registry's own list?"""
+    try:
+        m = new_model()
+        for t in "aaaab":
+            m.create_agent(t, {})
+        m.delete_agents(m.agent_ids("a"))
+        ok1 = list(m.agent_ids("a")) == [] and [a.id for a in m.agents] == [4] and list(m.agent_ids("b")) == [4]
+        for t in "aaa":
+            m.create_agent(t, {})
+        m.delete_agents(m.agent_type_map["a"])
+        ok2 = list(m.agent_ids("a")) == [] and [a.id for a in m.agents] == [4] and m.agent_count("a") == 0
+        return ok1 and ok2
     except Exception:
         return False
 
@@ -450,9 +511,10 @@ ANYATTR_WITNESSES = [   # (name, fac, ops, what the Lean witness theorem says th
 ]
 
 
-def gen_lean(count_by_id, aliased):
+def gen_lean(count_by_id, aliased, snapshot=True):
     b = "true" if count_by_id else "false"
     a = "true" if aliased else "false"
+    d = "true" if snapshot else "false"
     body = (f"theorem holds : C14_full cfg := C14_full_of_good cfg (by decide)\n#print axioms holds\n" if count_by_id else
             f"theorem violated : ¬ C14_full cfg := C14_witness_positional cfg (by decide)\n#print axioms violated\n"
             f"#print axioms C14_partial\n")
@@ -461,9 +523,15 @@ def gen_lean(count_by_id, aliased):
                  "theorem caller_can_corrupt : AliasCorrupts cfg := C14_alias_witness cfg (by decide)\n#print axioms caller_can_corrupt\n")
     else:
         body += ("theorem caller_cannot_corrupt : AliasSafe cfg := C14_alias_safe cfg (by decide)\n#print axioms caller_cannot_corrupt\n")
+    if snapshot:
+        body += ("/-- `delete_agents` is a function of the value of its argument: passing the registry's own id list is safe. -/\n"
+                 "theorem own_lists_safe : C14_full_aliased cfg := C14_full_aliased_of_snapshot cfg (by decide)\n#print axioms own_lists_safe\n")
+    elif aliased:
+        body += ("/-- ids are removed in place while the argument is iterated: `delete_agents(agent_ids(t))` leaves dead ids listed. -/\n"
+                 "theorem own_lists_corrupt : ¬ C14_full_aliased cfg := C14_witness_delete_inplace cfg (by decide) (by decide)\n#print axioms own_lists_corrupt\n")
     return ("import Bptk.Props.C14\n/-! GENERATED by harness/props/c14.py from /repo on every run — do not edit. -/\n"
             "namespace Bptk.C14.Gen\n"
-            f"def cfg : Cfg := {{ countById := {b}, idsAliased := {a} }}\n" + body + "end Bptk.C14.Gen\n")
+            f"def cfg : Cfg := {{ countById := {b}, idsAliased := {a}, deleteArgSnapshot := {d} }}\n" + body + "end Bptk.C14.Gen\n")
 
 
 # ------------------------------------------------------------------ generators
@@ -478,6 +546,53 @@ def exhaustive(L, fac=None, tag="exhaustive"):
             s2.apply(op)
             yield from rec_max(prefix + [op], s2, depth + 1)
     yield from rec_max([], Shadow(fac), 0)
+
+
+def exhaustive_ownargs(L):
+    """Every history of length L over an alphabet with the aliased-argument deletions (full mode)."""
+    def alphabet(sh):
+        ops = [("create", 0), ("create", 1), ("delown", 0, "ids"), ("delown", 1, "map"), ("deliter", 0), ("hold", 0), ("delheld",),
+               ("configure", [(0, 2), (1, 1)])]
+        if sh.live:
+            ops += [("delete", [sh.live[0][0]]), ("setstate", sh.live[-1][0], 1)]
+        return ops
+    def rec(prefix, sh, depth):
+        if depth == L:
+            yield Hist(prefix, None, "full", "exhaustive-ownargs"); return
+        for op in alphabet(sh):
+            s2 = sh.copy()
+            s2.apply(("delown", op[1]) if op[0] == "deliter" else op)       # population used to instantiate the alphabet only
+            yield from rec(prefix + [op], s2, depth + 1)
+    yield from rec([], Shadow(), 0)
+
+
+def rand_ownargs_history(rng, mode):
+    """Random histories in which deletions receive the model's own returned lists."""
+    sh, ops = Shadow(), []
+    for _ in range(rng.range(5, 35)):
+        if mode == "sparse" and rng.chance(1, 3):
+            ops.append(rand_query(rng, sh)); continue
+        r = rng.below(14)
+        if r < 5 or not sh.live:
+            op = ("create", rng.below(2))
+        elif r < 7:
+            op = ("delown", rng.below(2), rng.choice(["ids", "map"]))
+        elif r < 8:
+            op = ("deliter", rng.below(2))
+        elif r < 9:
+            op = ("hold", rng.below(2))
+        elif r < 10:
+            op = ("delheld",)
+        elif r < 11:
+            op = ("delete", sorted({rng.choice(sh.live)[0] for _ in range(rng.range(1, 2))}))
+        elif r < 12:
+            op = ("setstate", rng.choice(sh.live)[0], rng.below(3))
+        elif r < 13:
+            op = ("configure", [(t, rng.below(4)) for t in REG])
+        else:
+            op = ("reset",)
+        sh.apply(("delown", op[1]) if op[0] == "deliter" else op); ops.append(op)
+    return Hist(ops, None, mode, "random-ownargs")
 
 
 def exhaustive_nodes(L, Lmin):
@@ -604,6 +719,9 @@ def histories(chk):
         yield rand_history(rng, rng.choice(["full", "sparse"]), rng.choice(UNFAITHFUL + [None, None]), offcontract=True)
     for _ in range(n // 5):
         yield rand_history(rng, rng.choice(["full", "sparse"]), None, alias=True)
+    yield from exhaustive_ownargs(3 if chk.quick else 5)
+    for _ in range(n // 2):
+        yield rand_ownargs_history(rng, rng.choice(["full", "sparse"]))
     if L7:
         yield from exhaustive_nodes(L7, L)
 
@@ -616,9 +734,10 @@ def run(chk):
     quiet_bptk_logging()
     count_by_id = probe_count_by_id()
     alias = probe_alias()
-    chk.notes["cfg"] = {"countById": count_by_id, "idsAliased": alias["idsAliased"]}
+    snapshot = probe_delete_snapshot()
+    chk.notes["cfg"] = {"countById": count_by_id, "idsAliased": alias["idsAliased"], "deleteArgSnapshot": snapshot}
     chk.notes["alias_probe"] = alias
-    ok, why = chk.prove(gen_lean(count_by_id, alias["idsAliased"]))
+    ok, why = chk.prove(gen_lean(count_by_id, alias["idsAliased"], snapshot))
     chk.cov["trusted_base"] = [
         "Lean 4.33 kernel; axioms propext, Classical.choice, Quot.sound (audited per run via #print axioms)",
         "hand-written model lean/Bptk/Core/C14.lean of Model.create_agent(s)/delete_agent(s)/configure_agents/configure/reset and the queries agent/agent_ids/agent_count/agent_count_per_state/next_agent/random_agents; tied to /repo by the correspondence run of this check and by the probes of agent_count_per_state and of agent_ids aliasing",
@@ -626,7 +745,8 @@ def run(chk):
     ]
     chk.assumptions = ["C14_full: agent factories return Agent objects whose agent_type is the key they were registered under and whose id is the id handed to them (for other factories C14_partial_anyattr and the three decide-checked witnesses say what remains)",
                        "agent factories are registered before the first operation and not re-registered (register_agent_factory empties the type's id list)",
-                       "callers do not mutate the list returned by agent_ids (it is the registry's own list: C14_alias_witness)",
+                       "callers do not mutate the list returned by agent_ids (it is the registry's own list: C14_alias_witness); passing it "
+                       "(or agent_type_map[T]) to delete_agents, or deleting while iterating it, IS covered (wave 4: C14_full_aliased)",
                        "random.random() returns a value in [0, 1]"]
     L, anyf, L7, _ = bounds(chk)
     chk.cov["rule"] = (f"all histories of length {L} over the alphabet {{create a, create b, delete oldest, delete newest, "
@@ -634,11 +754,14 @@ def run(chk):
                        f"(every query compared after every operation); the same to length {'/'.join(str(l) for _, l in anyf)} with {len(anyf)} factories whose agent_type differs from the key; "
                        + (f"every history of length {L + 1}..{L7} with all queries at its end; " if L7 else "")
                        + "seeded random histories of length 5..40 in two modes (all queries after every operation / queries as sparse operations incl. "
-                       "lookups of never-, no-longer- and again-alive ids and random_agents with scripted draws), lookup patterns around every clearing "
+                       "lookups of never-, no-longer- and again-alive ids and random_agents with scripted draws), deletions whose argument is the model's own list (delete_agents(agent_ids(T)), "
+                       "delete_agents(agent_type_map[T]), delete_agent while iterating agent_ids(T), delete_agents(held list)): all histories "
+                       f"of length {3 if chk.quick else 5} over a 10-letter alphabet with them, and random ones; lookup patterns around every clearing "
                        "operation with the same agent counts, Model.configure, unfaithful factories, unregistered types, caller appends; "
                        "a case is the canonical op sequence; non-trivial = contains at least one deletion/configure/reset")
     chk.cov["exhaustive"] = False
-    head = [f"cfg countById {1 if count_by_id else 0}", f"cfg idsAliased {1 if alias['idsAliased'] else 0}"]
+    head = [f"cfg countById {1 if count_by_id else 0}", f"cfg idsAliased {1 if alias['idsAliased'] else 0}",
+            f"cfg deleteArgSnapshot {1 if snapshot else 0}"]
     st = {"spec": None, "contract": None, "off": None, "rnd": None, "n": 0, "skipped": 0, "n_rnd": 0}
     kinds, tags = {}, {}
 
@@ -660,14 +783,14 @@ def run(chk):
                 st[cls] = info
 
     pending = None
-    req, real, owner = list(head), ["ok", "ok"], [None, None]
+    req, real, owner = list(head), ["ok"] * len(head), [None] * len(head)
     with ThreadPoolExecutor(max_workers=1) as ex:
         def flush():
             nonlocal pending, req, real, owner
             if pending is not None:
                 compare(*pending)
             pending = (ex.submit(drive, "C14", req), req, real, owner)
-            req, real, owner = list(head), ["ok", "ok"], [None, None]
+            req, real, owner = list(head), ["ok"] * len(head), [None] * len(head)
         for hi, h in enumerate(histories(chk)):
             rq, rl, viols = run_history(h)
             req += rq; real += rl; owner += [h] * len(rq)
@@ -720,6 +843,9 @@ def run(chk):
         _, _, vv = run_history(small)
         rp = small.replay(); rp["violations"] = vv[0][1]
         chk.add_finding(key0, f"after {small.lines()}: {vv[0][1][0][1]}", rp)
+    if not snapshot and first_spec_fail is None:
+        chk.add_finding("agent_ids", "probe: create a x4, b; delete_agents(agent_ids('a')): dead ids stay listed / live agents wrong",
+                        {"ops": ["create 0"] * 4 + ["create 1", "deleteown 0 ids"], "mode": "full"})
     if not count_by_id and first_spec_fail is None:
         chk.add_finding("agent_count_per_state", "probe: create a x4, delete 1, set-state 3 s1: agent_count_per_state wrong or raises",
                         {"ops": ["create 0"] * 4 + ["delete 1", "setstate 3 1"]})
